@@ -4,9 +4,12 @@ From PF Require Export Tri.Delaunay Tri.BowyerWatson Check.Common.
 Import ListNotations.
 
 (* points: integer coordinates (unit = the harness's dyadic grid step); tris / pos: what
-   triangulation.BowyerWatson returned (index triples in map order, Position in the same unit) *)
+   triangulation.BowyerWatson returned (index triples in map order, Position in the same unit);
+   an input that reproduces the known finding (hull triangles dropped) is written as two cases:
+   first need_spec = true, need_cover = false (everything except coverage must hold), then
+   need_spec = false, need_cover = true under the finding's FailKey; all other cases have both *)
 Inductive case :=
-| CTri (use_model : bool) (pts : list (Z * Z)) (tris : list (nat * nat * nat)) (pos : list (Z * Z * Z)).
+| CTri (use_model need_spec need_cover : bool) (pts : list (Z * Z)) (tris : list (nat * nat * nat)) (pos : list (Z * Z * Z)).
 
 Definition qpts (pts : list (Z * Z)) : list pt := map (fun p => (inject_Z (fst p), inject_Z (snd p))) pts.
 Definition tri_inb (t : tri) (l : list tri) : bool := existsb (tri_eqb t) l.
@@ -14,11 +17,13 @@ Definition tri_inb (t : tri) (l : list tri) : bool := existsb (tri_eqb t) l.
 (* model vs implementation: the same set of index triples (exact triples, not up to rotation) *)
 Definition corr_ok (c : case) : bool :=
   match c with
-  | CTri m pts tris _ =>
+  | CTri m _ _ pts tris _ =>
       if m then
         match bw (qpts pts) with
         | Some ts => (length ts =? length tris)%nat &&
-                     forallb (fun t => tri_inb t tris) ts && forallb (fun t => tri_inb t ts) tris
+                     forallb (fun t => tri_inb t tris) ts && forallb (fun t => tri_inb t ts) tris &&
+                     (* the run of the model meets the hypotheses of bw_delaunay_partial on this input *)
+                     cavities_okb super_fixed (qpts pts)
         | None => false
         end
       else true
@@ -32,10 +37,12 @@ Fixpoint pos_okb (pts : list (Z * Z)) (pos : list (Z * Z * Z)) : bool :=
   end.
 
 (* the property on the implementation's output: certified 4-conjunct checker, vertex i = input
-   point i at (x,0,y), and "triangulation of the input": every point used, 2n-2-h triangles *)
+   point i at (x,0,y), and "triangulation of the input": every point used, 2n-2-h triangles, and
+   the triangle areas add up to the area of the convex hull (exact in Q) *)
 Definition prop_ok (c : case) : bool :=
   match c with
-  | CTri _ pts tris pos =>
+  | CTri _ spec cover pts tris pos =>
       let q := qpts pts in
-      pos_okb pts pos && delaunayb q tris && completeb q tris
+      (if spec then pos_okb pts pos && delaunayb q tris else true) &&
+      (if cover then completeb q tris && coverb q tris else true)
   end.
